@@ -62,6 +62,8 @@ fn lists() -> Vec<(&'static str, Vec<Vec<(Combo, f32)>>)> {
         // three different range widths (1, 3, 2): any internal reordering of the seats by width is a 3-cycle
         ("L4", vec![r(&[("AdKd", 1.0)]), r(&[("QsJs", 1.0), ("QhJh", 0.5), ("7d7c", 1.0)]), r(&[("TsTh", 1.0), ("AsTd", 0.5)])]),
         ("L3", vec![r(&[("7s7h", 1.0), ("7s2s", 0.5), ("As7d", 0.5)]), r(&[("AhAd", 1.0), ("2h2d", 0.5), ("7c2c", 1.0), ("AsKs", 0.125)])]),
+        // a full table: ten one-combo players (seats 8 and 9 exist), suit-asymmetric, sharing kickers so that ties occur
+        ("L5", ["KsQs", "KhJh", "KdTd", "Kc9c", "QhJs", "QdTs", "Qc9h", "JdTh", "Jc9d", "Tc9s"].iter().map(|t| r(&[(*t, 1.0)])).collect()),
     ]
 }
 
@@ -133,7 +135,21 @@ pub fn run(tier: &str) -> i32 {
         if !base.pots_ok {
             bad.push((perms[0], id.clone(), json!({"problem": "a showdown's flagged players differ from winner_len() or nobody is flagged"})));
         }
-        let ords = if all_orders { orders(n) } else { vec![id.clone(), id.iter().rev().cloned().collect()] };
+        let ords = if !all_orders {
+            vec![id.clone(), id.iter().rev().cloned().collect()]
+        } else if n <= 4 {
+            orders(n)
+        } else {
+            // n! is out of reach: all rotations, the reversal and all adjacent transpositions (these generate every order)
+            let mut v: Vec<Vec<usize>> = (0..n).map(|k| (0..n).map(|i| (i + k) % n).collect()).collect();
+            v.push(id.iter().rev().cloned().collect());
+            for k in 0..n - 1 {
+                let mut t = id.clone();
+                t.swap(k, k + 1);
+                v.push(t);
+            }
+            v
+        };
         for p in &perms {
             for o in &ords {
                 if *p == [0, 1, 2, 3] && *o == id {
@@ -183,14 +199,14 @@ pub fn run(tier: &str) -> i32 {
     rep.machine(showdowns.max(1), runs, runs);
     rep.sub(
         "relabel-reorder",
-        if thorough { "all 220 flops over ranks A,7,2 x 4 suit-asymmetric overlapping range lists x 24 suit permutations x all player orders; plus all 22,100 flops x 2 lists x 24 permutations x {identity, reversed} order. distinct_nontrivial = base configurations with both outright wins and ties" } else { "all 220 flops over the 12 cards of ranks A,7,2 x 4 suit-asymmetric overlapping range lists x 24 suit permutations x all n! player orders. distinct_nontrivial = base configurations with both outright wins and ties" },
+        if thorough { "all 220 flops over ranks A,7,2 x 5 suit-asymmetric overlapping range lists (2, 3, 3, 2 and 10 players) x 24 suit permutations x all player orders (10 players: rotations, reversal, adjacent transpositions); plus all 22,100 flops x 2 lists x 24 permutations x {identity, reversed} order. distinct_nontrivial = base configurations with both outright wins and ties" } else { "all 220 flops over the 12 cards of ranks A,7,2 x 5 suit-asymmetric overlapping range lists (2, 3, 3, 2 and 10 players) x 24 suit permutations x all n! player orders (10 players: all rotations, the reversal and all adjacent transpositions). distinct_nontrivial = base configurations with both outright wins and ties" },
         runs,
         nontrivial,
         false,
         json!({"base_configurations": jobs.len(), "evaluator_runs": runs}),
     );
     rep.sample(json!({"flop": "As7h2d", "list": "L2: [AsKs,AhKh:0.5] [KdKc,KsKd] [AdQd,KsQs:0.25]", "perm": "s->h h->d d->c c->s", "order": [2, 0, 1]}));
-    rep.bound("range lists are three fixed small lists (product of sizes <= 12); flops: 220 (quick) / all 22,100 (thorough)");
+    rep.bound("range lists are five fixed small lists (product of sizes <= 12); flops: 220 (quick) / all 22,100 (thorough)");
     rep.assume("weights are dyadic so the f64 sum of probabilities is exact in any order");
     rep.finish()
 }
